@@ -77,9 +77,12 @@ func nodeScenario(c nodeConfig) func() func() []string {
 		bd.SetCanceller(node.ID(), node)
 		interrupt := make(chan interface{})
 		var runErr error
+		var runTook time.Duration
 		runReturned := false
 		vsched.GoNamed("run", func() {
+			t0 := vsched.Now()
 			runErr = bd.Run(bg, interrupt)
+			runTook = vsched.Since(t0)
 			runReturned = true
 		})
 		peerReturned := c.deliver == "none"
@@ -127,8 +130,11 @@ func nodeScenario(c nodeConfig) func() func() []string {
 				problems = append(problems, "processed-twice: the block was processed more than once")
 			}
 			out := "run:" + errClass(runErr)
-			if vsched.LastElapsed() >= 2*time.Minute {
-				out += "/via-timeout"
+			out += "/" + tookClass(runTook)
+			if runTook >= 10*time.Minute {
+				// every stream of this harness ends, so nothing justifies waiting for the cancel-wait or
+				// download fallback timers: a signal was lost
+				problems = append(problems, "run-stalled: Run returned "+errClass(runErr)+" only "+tookClass(runTook)+" (a completion signal was lost)")
 			}
 			if node.IsBusy() {
 				out += "/node-still-busy"
